@@ -158,6 +158,8 @@ func GenWorld(r *core.Rand, maxThings int, small bool) *World {
 		if r.Bool() {
 			// half of these worlds also hold the ends of the int64 range: keys further apart than an int64 can say
 			ip = append(append([]int64{}, ip...), math.MaxInt64, math.MinInt64, math.MinInt64+1)
+			fp = append(append([]float64{}, fp...), math.Inf(-1), math.Inf(1)) // the infinities are sort keys like any other; null sorts in front of them
+
 		}
 	}
 	for _, id := range core.Subset(r, OwnerIds, 0.6) {
